@@ -269,3 +269,56 @@ Proof.
   unfold dot3, dist2, vsub, vadd, vscale, vx, vy, vz in *. cbn [fst snd oadd osub omul Rops] in *.
   split; nsatz.
 Qed.
+
+(* ------------------------------------------------------------------ flat_ring: the rim is on the unit circle of the plane z = 0 *)
+Lemma vscan_Forall (P : vec R -> Prop) (f : vec R -> Z -> vec R) s l :
+  P s -> (forall s i, P s -> P (f s i)) -> Forall P (vscan f s l).
+Proof.
+  intros Hs Hf. revert s Hs. induction l as [|i l IH]; intros s Hs; cbn [vscan]; constructor; auto.
+Qed.
+
+Lemma flat_ring_rim_on_circle N d k :
+  exists rim, flat_ring_coords Rops N d k = (0, 0, 0) :: rim /\ Forall on_unit_circle rim.
+Proof.
+  unfold flat_ring_coords. cbv zeta. cbn [app]. eexists. split; [reflexivity|].
+  assert (H1 : on_unit_circle (oofZ Rops 1, oofZ Rops 0, oofZ Rops 0)).
+  { unfold on_unit_circle, vx, vy, vz. cbn. split; ring. }
+  constructor; [exact H1|]. apply vscan_Forall; [exact H1|].
+  intros [[x y] z] i [Hc Hz]. unfold on_unit_circle, rotate_2d, vx, vy, vz in *. cbn [fst snd ocos osin osub oadd omul oofZ Rops] in *.
+  split; [|reflexivity]. set (a := odiv Rops _ _). pose proof (cs2 a) as H. set (c := cos a) in *. set (s := sin a) in *.
+  clearbody c s. nsatz.
+Qed.
+
+(* ------------------------------------------------------------------ sphere_fibonacci: every point at distance `radius` from the origin *)
+Lemma sphere_fibonacci_on_sphere n (radius : R) b : (1 <= n)%Z ->
+  Forall (fun p => dot3 p p = radius * radius) (sphere_fibonacci_coords Rops n radius b).
+Proof.
+  intros Hn. unfold sphere_fibonacci_coords. cbv zeta. apply Forall_forall. intros p Hp.
+  apply in_flat_map in Hp as [i [Hi Hp]]. apply In_zrange in Hi. destruct Hp as [<-|[]].
+  unfold dot3, vscale, vx, vy, vz. cbn [fst snd oadd osub omul odiv ocos osin osqrt oofZ Rops].
+  set (j := (2 * i - (n - 1))%Z). set (th := _ / _ * _ + _ * _ / _) || idtac.
+  assert (Hq : 0 <= IZR ((n + j) * (n - j))) by (apply IZR_le; subst j; nia).
+  pose proof (sqrt_sqrt _ Hq) as Hs. set (q := R_sqrt.sqrt (IZR ((n + j) * (n - j)))) in *.
+  rewrite mult_IZR, plus_IZR, minus_IZR in Hs.
+  assert (Hn0 : IZR n <> 0) by (apply not_0_IZR; lia).
+  match goal with |- context[sin ?a] => pose proof (cs2 a) as Ht; set (c := cos a) in *; set (s := sin a) in * end.
+  clearbody c s q. unfold Rdiv. assert (Hi' : / IZR n * IZR n = 1) by (field; auto).
+  set (inv := / IZR n) in *. clearbody inv. set (nn := IZR n) in *. set (jj := IZR j) in *. clearbody nn jj. nsatz.
+Qed.
+
+(* ------------------------------------------------------------------ icosphere: the projection puts a vertex at `radius` from `center` *)
+Lemma icosphere_project_on_sphere k (center : vec R) (radius : R) (v : vec R) :
+  0 < dot3 (vsub Rops v center) (vsub Rops v center) ->
+  dist2 (icosphere_project Rops k center radius v) center = radius * radius.
+Proof.
+  intros H. unfold icosphere_project. pose proof (vnormalized_unit_norm _ H) as Hu.
+  set (u := vnormalized Rops (vsub Rops v center)) in *. clearbody u.
+  destruct u as [[ux uy] uz], center as [[cx cy] cz]. unfold dot3, dist2, vadd, vscale, vx, vy, vz in *.
+  cbn [fst snd oadd omul Rops] in *. nsatz.
+Qed.
+(* ... and the mesh it starts from is the icosahedron with the same centre and radius *)
+Lemma icosphere_base k (center : vec R) (radius : R) :
+  icosphere_base_faces = icosahedron_faces false /\ icosphere_base_nverts = icosahedron_nverts false /\
+  icosphere_base_coords Rops k center radius = icosahedron_coords Rops center radius false /\
+  icosphere_rounds k = k /\ icosphere_loop_passes = 1%Z.
+Proof. repeat split. Qed.
